@@ -1263,7 +1263,12 @@ def dump(
     if isinstance(params, Fault):
         # Prepare an error dictionary
         # pylint: disable=E1103
-        return payload.error(params.faultCode, params.faultString, params.data)
+        data = params.data
+        if data is not None and config.use_jsonclass:
+            # Like a result, the data can contain sets, beans...
+            data = jsonclass.dump(data, config=config)
+
+        return payload.error(params.faultCode, params.faultString, data)
 
     if not isinstance(methodname, utils.STRING_TYPES) and not is_response:
         # Neither a request nor a response
